@@ -762,6 +762,34 @@ def dfltsHarmlessO (exro : Bool) : Option RS → Bool
   | some s => dfltsHarmless exro s
 end
 
+/-! #### the completed value (two-phase reading of default-setting: first complete, then validate) -/
+
+/-- one declared property of an object under completion: a present member is completed with its schema -/
+def completeStep (k : Str) (f : V → V) (kvs : List (Str × V)) : List (Str × V) :=
+  match lookup k kvs with
+  | none => kvs
+  | some x => setKey k (f x) kvs
+
+def completeK (inj fP : List (Str × V) → List (Str × V)) (fI : List V → List V) : V → V
+  | .obj kvs => .obj (fP (inj kvs))
+  | .arr xs => .arr (fI xs)
+  | v => v
+
+mutual
+/-- `complete exro s v`: every absent property that has a default (and is not read-only in a request) receives it,
+at every depth of properties and items — including inside the injected defaults themselves. Composition keywords
+are not looked at (the two-phase reading is stated for composition-free schemas). -/
+def complete (exro : Bool) : RS → V → V
+  | .mk _ _ _ _ _ _ props _ _ items _ _ _ _ _ => fun v =>
+    completeK (inject exro props) (completeProps exro props) (completeItems exro items) v
+def completeProps (exro : Bool) : List (Str × RS) → List (Str × V) → List (Str × V)
+  | [] => fun kvs => kvs
+  | (k, p) :: r => fun kvs => completeProps exro r (completeStep k (complete exro p) kvs)
+def completeItems (exro : Bool) : Option RS → List V → List V
+  | none => fun xs => xs
+  | some it => fun xs => xs.map (complete exro it)
+end
+
 /-- where the request-side reading of the property text decides the verdict also under default-setting: no
 default fires on this value, or the schema is composition-free with harmless defaults -/
 def defaultsNeutral (exro : Bool) (s : RS) (v : V) : Bool :=
@@ -1545,6 +1573,36 @@ def caseNeutral (reg : List (Str × DecK)) (rb : ReqBody) (ct : Str) (b : BodyIn
   (match decodedValue reg rb ct b with
    | some (s, v) => defaultsNeutral exro s v
    | none => true)
+
+/-- the selected schema has no composition keyword (or validation does not get that far) -/
+def caseCompFree (reg : List (Str × DecK)) (rb : ReqBody) (ct : Str) (b : BodyIn) : Bool :=
+  match decodedValue reg rb ct b with
+  | some (s, _) => compFree s
+  | none => true
+
+/-- **the property under default-setting, two-phase reading** (C13: "the resulting request validates"): as
+`Accept`, but with default-setting on the value that must satisfy the schema read as a request is the value the
+body encodes COMPLETED by the declared defaults. Stated for composition-free schemas (`complete` does not look at
+composition keywords). -/
+def AcceptD (reg : List (Str × DecK)) (rb : ReqBody) (ct : Str) (b : BodyIn) (exro ds : Bool) : Prop :=
+  (b.text = [] ∧ rb.required = false) ∨
+  (b.text ≠ [] ∧ (rb.content = [] ∨
+    ∃ mt, firstSome rb.content (candidates ct) = some mt ∧
+      (mt.schema = none ∨ ∃ s v, mt.schema = some s ∧ specDecode reg ct s mt.encs b = some v ∧
+        SatReq exro s (if ds then complete exro s v else v))))
+
+def acceptDB (reg : List (Str × DecK)) (rb : ReqBody) (ct : Str) (b : BodyIn) (exro ds : Bool) : Bool :=
+  if b.text = [] then !rb.required
+  else if rb.content = [] then true
+  else match firstSome rb.content (candidates ct) with
+    | none => false
+    | some mt =>
+      match mt.schema with
+      | none => true
+      | some s =>
+        match specDecode reg ct s mt.encs b with
+        | none => false
+        | some v => satReqB exro s (if ds then complete exro s v else v)
 
 /-- schema and decoded value are well-formed (distinct keys) -/
 def caseWF (reg : List (Str × DecK)) (rb : ReqBody) (ct : Str) (b : BodyIn) : Bool :=
